@@ -329,4 +329,14 @@ theorem lookup_nested (pl : Bool) (scores : Tile P → List Int) (t1 : Tile P) (
   rw [C04.div4_getD mid _ _ _ (Nat.mod_lt _ (by omega))]
   exact (C04.mem_div4 mid _ _).2 ⟨_, Nat.mod_lt _ (by omega), rfl⟩
 
+/-! ### non-vacuity -/
+
+/-- longitude 3/8 turn (135°): astronomical tile (0,0) — index 0 — spans 90°…180°; in the planetary system the same
+longitude is found in tile (1,1) — index 3; five extra turns change nothing -/
+example : selectLevel1 false (3 / 8) = 0 ∧ selectLevel1 true (3 / 8) = 3 ∧ selectLevel1 true (3 / 8 + 5) = 3 ∧
+    spansQuarter false 0 1 = true ∧ spansQuarter true 3 1 = true := by decide +kernel
+
+/-- the choice rule on concrete scores: first zero wins; otherwise the first maximum -/
+example : pick [-3, 0, 0, -2] = 1 ∧ pick [-3, -1, -1, -2] = 1 ∧ pick [-5, -4, -3, -3] = 2 := by decide
+
 end C12
